@@ -348,6 +348,20 @@ func (c *Chain) renderRotation(st *Post, removed []string, v string, cur crypto.
 		if extra != "-" {
 			accs = append(accs, extra)
 		}
+	case "swap":
+		extra := "-"
+		if len(removed) > 0 {
+			extra = w.first(func(a string) bool { return isRemoved(a) })
+		} else {
+			extra = w.first(func(a string) bool { return !in(exA, a) })
+		}
+		if extra != "-" && len(accs) > 0 {
+			accs = append(accs[1:], extra)
+		}
+	case "swapinv":
+		if extra := w.firstInv(func(i string) bool { return !in(exI, i) }); extra != "-" && len(invs) > 0 {
+			invs = append(invs[1:], extra)
+		}
 	case "noinv":
 		if len(invs) > 0 {
 			invs = invs[1:]
